@@ -702,7 +702,7 @@ class VP:
                 pf = fn.promoted_fn(int(m.group(1)))
                 if pf is not None:
                     return self.local(pf, 0)
-            return ("const", o["s"])
+            return ("const", o.get("eval") or o["s"])   # a named integer constant is its value (`usize::BITS`, `const TOP_BIT`)
         return ("other", o.get("s", "?"))
 
     def place(self, fn, pl, stack=None):
